@@ -80,3 +80,53 @@ def git_check_refname_format(s):
     starts_ok = all(not (k == 0 or s[k - 1] == 47) or (k < n and s[k] != 47 and s[k] != 46) for k in range(0, n + 1))
     ends_ok = all(not (k == n or s[k] == 47) or not is_dotlock_before(s, k) for k in range(0, n + 1))
     return n > 0 and has_slash and chars_ok and no_dotdot and no_at_brace and starts_ok and ends_ok and s[n - 1] != 46
+
+
+def lower1(c):
+    """ASCII lower-casing of one byte (bytes.lower())."""
+    return c + 32 if (65 <= c and c <= 90) else c
+
+
+def comp_end_is(s, e):
+    """position e ends a component of s: end of string or a '/'."""
+    return e == len(s) or s[e] == 47
+
+
+def bad_component_at(s, k):
+    """the '/'-separated component of s starting at k is one git refuses to check out on any platform
+    (verify_path): empty, '.', '..' or '.git' in any ASCII case."""
+    n = len(s)
+    empty = comp_end_is(s, k)
+    dot = k < n and s[k] == 46 and comp_end_is(s, k + 1)
+    dotdot = k + 1 < n and s[k] == 46 and s[k + 1] == 46 and comp_end_is(s, k + 2)
+    dotgit = (k + 3 < n and s[k] == 46 and lower1(s[k + 1]) == 103 and lower1(s[k + 2]) == 105 and lower1(s[k + 3]) == 116
+              and comp_end_is(s, k + 4))
+    return empty or dot or dotdot or dotgit
+
+
+def bad_element(e):
+    """a single path element (no '/') that git refuses: empty, '.', '..', '.git' in any ASCII case."""
+    n = len(e)
+    return (n == 0 or (n == 1 and e[0] == 46) or (n == 2 and e[0] == 46 and e[1] == 46)
+            or (n == 4 and e[0] == 46 and lower1(e[1]) == 103 and lower1(e[2]) == 105 and lower1(e[3]) == 116))
+
+
+def path_is_safe(s):
+    """every '/'-separated component of s is acceptable (no component is empty, '.', '..' or '.git')."""
+    return all(not (k == 0 or s[k - 1] == 47) or not bad_component_at(s, k) for k in range(0, len(s) + 1))
+
+
+def ntfs_head_len(s):
+    """length of the leading '.git' / 'git~1' spelling of s (any ASCII case), or 0 if there is none."""
+    n = len(s)
+    dotgit = n >= 4 and s[0] == 46 and lower1(s[1]) == 103 and lower1(s[2]) == 105 and lower1(s[3]) == 116
+    short = (n >= 5 and lower1(s[0]) == 103 and lower1(s[1]) == 105 and lower1(s[2]) == 116 and s[3] == 126 and s[4] == 49)
+    return 4 if dotgit else (5 if short else 0)
+
+
+def ntfs_dotgit(s):
+    """git's is_ntfs_dotgit for one path segment: a '.git' / 'git~1' spelling followed only by dots and spaces
+    up to the end of the segment or up to a ':' (alternate data stream)."""
+    h = ntfs_head_len(s)
+    n = len(s)
+    return h > 0 and any((e == n or s[e] == 58) and all(s[k] == 46 or s[k] == 32 for k in range(h, e)) for e in range(h, n + 1))
